@@ -648,7 +648,7 @@ def cases_roundtrip(ctx):
     for _ in range(4000):
         p, s = rng.choice(PREFIXES), rng.choice(SUFFIXES)
         kind = rng.choice(["trn", "ctm", "tg", "ali", "tok"])
-        ids = rng.sample(UTT_IDS + ["u%d" % i for i in range(4)], rng.randint(1, 4))
+        ids = rng.sample(UTT_IDS + ["w%d" % i for i in range(4)], rng.randint(1, 4))
         if kind == "trn":
             yield {"kind": "trn", "prefix": p, "suffix": s, "utts": [[u, _rand_tokens(rng, 6)] for u in ids], "size": rng.choice(["full", "skip", "feat"]),
                    "swap_in": rng.random() < .5, "swap_out": rng.random() < .5}
@@ -808,7 +808,7 @@ def cases_error_rate(ctx):
     rng = random.Random(ctx.seed * 104729 + 5)
     for _ in range(6000):
         n = rng.randint(1, 7)
-        ids = rng.sample(UTT_IDS + ["u%d" % i for i in range(6)], n)
+        ids = rng.sample(UTT_IDS + ["w%d" % i for i in range(6)], n)
         utts = [[u, [rng.randint(0, 3) for _ in range(rng.randint(0, 7))], [rng.randint(0, 3) for _ in range(rng.randint(0, 7))]] for u in ids]
         case = dict(prefix=rng.choice(PREFIXES), suffix=rng.choice(SUFFIXES), utts=utts, batch=rng.randint(1, n + 1), id2token=rng.random() < .5,
                     mode=rng.choice(["total", "per_utt", "dist", "per_utt_dist"]), layout=rng.choice(["parent", "two"]), shape=rng.choice([1, 3]), **rng.choice(ER_RULES))
@@ -941,7 +941,7 @@ def cases_subset(ctx):
             crits = []
             for kind in ("first", "last", "shortest", "longest", "rand"):
                 crits += [[kind + "-n", m] for m in range(n + 2)] + [[kind + "-ratio", r] for r in ratios]
-            lists = [[]] if not ids else [ids[:1], ids[::-1], ids[1:] + ["nope"], ["nope"], ids[::2]]
+            lists = [[]] if not ids else [ids[:1], ids[::-1], ids[1:] + ["nope"], ["nope"], ids[::2], ids[:2] + ids[:1]]  # the last one names an utterance twice
             crits += [["utt-list", l] for l in lists if l] + [["utt-list-file", l] for l in lists]
             for crit in crits:
                 for only in (False, True):
@@ -952,11 +952,11 @@ def cases_subset(ctx):
     rng = random.Random(ctx.seed * 31337 + 3)
     for _ in range(3000):
         n = rng.randint(0, 8)
-        ids = rng.sample(UTT_IDS + ["u%d" % i for i in range(8)], n)
+        ids = rng.sample(UTT_IDS + ["w%d" % i for i in range(8)], n)
         c = {"feats": [[u, rng.randint(1, 5)] for u in ids], "ali": rng.choice([None, rng.sample(ids, rng.randint(0, n))]), "ref": rng.choice([None, ids])}
         kind = rng.choice(["first", "last", "shortest", "longest", "rand", "list", "list-file"])
         if kind.startswith("list"):
-            crit = ["utt-" + kind, rng.sample(ids + ["nope", "zz"], rng.randint(0 if kind == "list-file" else 1, n + 1))]
+            crit = ["utt-" + kind, rng.sample(ids + ["nope", "zz"], rng.randint(0 if kind == "list-file" else 1, n + 1)) + (ids[:1] if rng.random() < .1 else [])]
         elif rng.random() < .5:
             crit = [kind + "-n", rng.randint(0, n + 2)]
         else:
@@ -1118,7 +1118,7 @@ def cases_moments(ctx):
     rng = random.Random(ctx.seed * 613 + 1)
     for _ in range(4000):
         p, s = rng.choice(PREFIXES), rng.choice(SUFFIXES)
-        ids = rng.sample(UTT_IDS + ["u%d" % i for i in range(5)], rng.randint(1, 5))
+        ids = rng.sample(UTT_IDS + ["w%d" % i for i in range(5)], rng.randint(1, 5))
         kind = rng.choice(["ali", "ref"])
         if kind == "ali":
             us = [[u, [rng.randint(0, 3) for _ in range(rng.randint(1, 15))]] for u in ids]
@@ -1338,8 +1338,15 @@ FINDINGS = [
              "because the per-utterance quotient is computed even when it is not printed",
      "class": "neither --per-utt nor --distances, some reference transcript has length 0 after replace-then-ignore, total reference length > 0",
      "witness": {"prefix": "", "suffix": ".pt", "utts": [["a", [], [0]], ["u1", [0], [0]]], "batch": 1, "id2token": False, "mode": "total", "layout": "parent", "shape": 1}},
+    {"id": "KF-C17-4", "property": "C17", "clause": "C17.cli.subset",
+     "what": "subset-torch-spect-data-dir raises FileExistsError (after linking part of the subset) when --utt-list/--utt-list-file names an existing utterance twice and files are "
+             "hard-linked (default) or symlinked; --copy silently overwrites",
+     "class": "--utt-list or --utt-list-file contains the id of an existing utterance more than once and the style is not --copy",
+     "witness": {"prefix": "", "suffix": ".pt", "crit": ["utt-list", ["u1", "u1"]], "only": True, "style": "link", "feats": [["u1", 1]], "ali": None, "ref": None}},
 ]
 KNOWN_MATCH = {
+    "KF-C17-4": lambda c, msg: "crit" in c and c["crit"][0].startswith("utt-list") and c.get("style", "link") != "copy" and "FileExistsError" in msg
+    and any(c["crit"][1].count(u) > 1 for u, _ in c["feats"]),
     "KF-C17-1": lambda c, msg: c.get("kind") == "tg" and c.get("precision") not in (None, 3) and (c.get("shift") or 10.0) < 1.0 and ("of class TextTier, expected" in msg or "came back at" in msg),
     "KF-C17-2": lambda c, msg: c.get("kind") == "tg" and c.get("fmt", "short") == "short" and c.get("tier_sel") == ["idx", 0] and ": shape (" in msg,
     "KF-C17-3": lambda c, msg: "batch" in c and c.get("mode", "total") == "total" and 0 in _er_ref_lens(c) and sum(_er_ref_lens(c)) > 0 and "ZeroDivisionError" in msg,
